@@ -1,4 +1,4 @@
-import RxProofs.Lemmas.VtsPeriodic3
+import RxProofs.Lemmas.VtsPeriodic4
 /-!
 # C35 — periodic scheduling threads state, keeps the period and stops
 
@@ -103,6 +103,85 @@ theorem interval_emits_naturals (handler : Err → Bool) (f : Nat → Int → Ti
   rw [h7 i hi, iterate_succ_int]
   simp
 
+/-- **tick_rule (any number of tasks, any in-call sleep).**  What the code guarantees at every tick of every
+run, whatever else is pending: when the loop of `advance_to(T)` gets the live tick of task `pid` (due `d ≤ T`,
+state `st`) and the action returns `st'` without disposing its handle, then the action was invoked at
+`now = max clock d` with `st`; afterwards the clock is `now + (time slept inside the call)`, and the task's
+next tick is pending, live, with state `st'` and due time exactly `now + period` — i.e. measured from the START
+of this call: the drift term cancels the sleep whatever its length (if the call slept longer than a period the
+next tick is already overdue and runs as soon as the queue reaches it, at `max clock due` again). -/
+theorem tick_rule (handler : Err → Bool) (f : Nat → σ → Tick σ) (T : Int) (s : St σ) (x : Item σ)
+    (q' : PQ (Item σ)) (pid : Nat) (st st' : σ) (t : Task)
+    (hen : s.enabled = true) (hd : s.queue.dequeue? Item.due = some (x, q')) (hdue : x.due ≤ T)
+    (hc : x.cancelled = false) (hk : x.kind = .tick pid st) (hg : getTask s pid = some t) (hp : 1 ≤ t.period)
+    (hlive : t.disposed = false) (hcf : (t.catch_ && t.failed) = false)
+    (hok : (f pid st).next = .ok st') (hnd : (f pid st).dispose = false) :
+    iter handler f T s = .next
+      (enqueue { s with clock := (if x.due > s.clock then x.due else s.clock) + (f pid st).sleep, queue := q',
+                        log := s.log ++ [{ pid, at_ := if x.due > s.clock then x.due else s.clock, st }] }
+        { due := (if x.due > s.clock then x.due else s.clock) + t.period, kind := .tick pid st', cancelled := false }) := by
+  have hi := iter_tick handler f T s x q' pid st t hen hd hdue hc hk hg hp
+  have hrt := runTick_ok handler f { s with clock := if x.due > s.clock then x.due else s.clock, queue := q' }
+    pid t st st' hg hlive hcf hok hnd
+  rw [hrt] at hi
+  exact hi
+
+/-- **closed form with arbitrary in-call sleeps.**  One periodic task (period `p ≥ 1`, scheduled at `t0`, through a
+CatchScheduler or not) on an otherwise idle scheduler, whose call with state `st` returns `F st` after
+sleeping `sl st` — ANY length: the invocation log of `advance_to(T)` is `idealG`, i.e. the first call is at
+`t0 + p`, every call gets the state returned by the previous one, and call `i+1` starts
+`max p (sl (state of call i))` after call `i` started (`idealG_chain`): on the multiples of the period while the
+calls are shorter than a period, late by exactly the overrun otherwise. -/
+theorem closed_form_any_sleep (handler : Err → Bool) (f : Nat → σ → Tick σ) (pid : Nat) (t0 p : Int) (st0 : σ) (c : Bool)
+    (T : Int) (F : σ → σ) (hp : 1 ≤ p) (hT : t0 < T)
+    (hf : ∀ st, (f pid st).next = .ok (F st) ∧ (f pid st).dispose = false) :
+    ∃ n, (advanceTo handler f T (schedulePeriodic { clock := t0 } pid p st0 c)).1.log =
+        idealG pid T p F (fun x => (f pid x).sleep) n t0 (t0 + p) st0 ∧
+      (advanceTo handler f T (schedulePeriodic { clock := t0 } pid p st0 c)).1.hlog = [] ∧
+      (∀ (i : Nat) (a b : Ran σ),
+        (advanceTo handler f T (schedulePeriodic { clock := t0 } pid p st0 c)).1.log[i]? = some a →
+        (advanceTo handler f T (schedulePeriodic { clock := t0 } pid p st0 c)).1.log[i + 1]? = some b →
+        b.st = F a.st ∧ b.at_ = a.at_ + (if ((f pid a.st).sleep : Int) > p then ((f pid a.st).sleep : Int) else p)) ∧
+      (∀ r, (advanceTo handler f T (schedulePeriodic { clock := t0 } pid p st0 c)).1.log[0]? = some r →
+        r.st = st0 ∧ r.at_ = t0 + p) := by
+  let t : Task := { period := p, catch_ := c }
+  let s0 : St σ := schedulePeriodic { clock := t0 } pid p st0 c
+  have hsolo : SoloG pid t { s0 with enabled := true } (t0 + p) st0 := by
+    refine ⟨rfl, ⟨PQ.MIN_COUNT, ?_⟩, ?_⟩
+    · simp [s0, schedulePeriodic, enqueue, PQ.enqueue]; rfl
+    · simp [s0, schedulePeriodic, enqueue, getTask, t]
+  have key := soloG_loop handler f T pid t F hp rfl rfl hf (weight T s0.queue.items + 1) { s0 with enabled := true }
+    (t0 + p) st0 hsolo
+  have hclk : ¬ (s0.clock > T) := by simp [s0, schedulePeriodic, enqueue]; omega
+  have hne : ¬ (s0.clock = T ∨ s0.enabled = true) := by simp [s0, schedulePeriodic, enqueue]; omega
+  have hlog : (advanceTo handler f T s0).1.log =
+      idealG pid T p F (fun x => (f pid x).sleep) (weight T s0.queue.items + 1) t0 (t0 + p) st0 ∧
+      (advanceTo handler f T s0).1.hlog = [] := by
+    simp only [advanceTo, if_neg hclk, if_neg hne]
+    rcases hl : loopFuel handler f T (weight T s0.queue.items + 1) { s0 with enabled := true } with ⟨s', o⟩
+    rw [hl] at key
+    obtain ⟨k1, k2⟩ := key
+    simp only at k1 k2
+    have e1 : s0.log = [] := by simp [s0, schedulePeriodic, enqueue]
+    have e2 : s0.hlog = [] := by simp [s0, schedulePeriodic, enqueue]
+    have e3 : s0.clock = t0 := by simp [s0, schedulePeriodic, enqueue]
+    rw [e1, e3, List.nil_append] at k1
+    rw [e2] at k2
+    cases o <;> exact ⟨k1, k2⟩
+  have hch := idealG_chain pid T p F (fun x => (f pid x).sleep) hp (weight T s0.queue.items + 1) t0 (t0 + p) st0
+  refine ⟨weight T s0.queue.items + 1, hlog.1, hlog.2, ?_, ?_⟩
+  · intro i a b ha hb
+    have ha' : (advanceTo handler f T s0).1.log[i]? = some a := ha
+    have hb' : (advanceTo handler f T s0).1.log[i + 1]? = some b := hb
+    rw [hlog.1] at ha' hb'
+    exact hch.2 i a b ha' hb'
+  · intro r hr
+    have hr' : (advanceTo handler f T s0).1.log[0]? = some r := hr
+    rw [hlog.1] at hr'
+    have := hch.1 r hr'
+    refine ⟨this.1, ?_⟩
+    rw [this.2]; split <;> omega
+
 /-- **stops_on_dispose.**  After `dispose()` of the handle returned by `schedule_periodic` — called from
 outside, from another scheduled action at some time, or by the periodic action itself — the action is never
 invoked again, whatever calls follow (`advance_to` any number of times, other periodic tasks, their
@@ -168,5 +247,11 @@ example :
 /-- a dispose action at time 12 stops the ticks after the one at 10 -/
 example : (runOps (fun _ => false) fDemo { clock := 0 } [.periodic 1 5 (0 : Int) false, .disposeAt 12 1, .advanceTo 40]).1.log
     = [⟨1, 5, 0⟩, ⟨1, 10, 1⟩] := by decide
+
+private def fSlow : Nat → Int → Tick Int := fun _ n => { next := .ok (n + 1), sleep := if n = 1 then 12 else 0 }
+
+/-- period 5, the call with state 1 (at 10) sleeps 12 > period: the next call is overdue and runs at 22, then 27 -/
+example : (advanceTo (fun _ => false) fSlow 30 (schedulePeriodic { clock := 0 } 1 5 (0 : Int) false)).1.log =
+    [⟨1, 5, 0⟩, ⟨1, 10, 1⟩, ⟨1, 22, 2⟩, ⟨1, 27, 3⟩] := by decide
 
 end C35
